@@ -172,8 +172,11 @@ def governed (w : UidWrite) : Bool :=
   | some .creatorDefault => decide (w.applies = ["creator_file"]) && decide (w.path = afterCreatorFile)
   | some .loadDefault => decide (w.applies = []) && decide (w.path = [])
   | some .masterRoot =>
+    -- the record-renaming set_root_uid only at the FIRST load; a reloaded master gets its uid through add_uid
     w.applies.contains "get_root_uid" && w.path.contains "if uid" &&
-      (w.path.contains "if first_load" || w.path.contains "else first_load")
+      (if w.stmt = "(master_ob->uid = set_root_uid(uid))" then w.path.contains "if first_load"
+       else if w.stmt = "(master_ob->uid = add_uid(uid))" then w.path.contains "else first_load"
+       else (w.path.contains "if first_load" || w.path.contains "else first_load"))
 
 /-- EVERY write to an object's uid / euid anywhere in src/ and lib/ (regenerated: text scan of all sources + clang AST
     of every function that touches the fields) falls under one of the enumerated rules, and is dominated by what that
@@ -204,6 +207,14 @@ theorem tie_uid_write_inventory :
     uidWrites.map (·.file) = ["lib/efuns/uids.c", "lib/efuns/uids.c", "lib/efuns/uids.c", "lib/lpc/object.c",
       "src/simulate.c", "src/simulate.c", "src/simulate.c", "src/simulate.c", "src/simulate.c", "src/simulate.c",
       "src/simulate.c", "src/simulate.c", "src/simulate.c", "src/simulate.c", "src/simulate.c", "src/simulate.c"] := by decide
+
+/-- uid names are interned records shared by pointer (userid_t): a name and its record stay in bijection - which is why the
+    model may use names - as long as no record is renamed.  The two functions that rename one IN PLACE (set_root_uid,
+    set_backbone_uid) are called from set_master only, and only in its first-load branch: at that moment no object but the
+    master holds a uid.  A reloaded master takes the add_uid path (`doDest`: nobody else's names change). -/
+theorem tie_uid_records_never_renamed :
+    uidRenamers = [("src/simulate.c", "set_master", "set_backbone_uid", s!"if first_load && if (ret && (ret->type == {tString}))"),
+                   ("src/simulate.c", "set_master", "set_root_uid", "if first_load && if uid")] := by decide
 
 /-- the rules are exhaustive the other way round too: every rule of the table has a site (no dead model rule) -/
 theorem tie_uid_rules_all_used :
